@@ -13,7 +13,7 @@ CONFIG = {
              'set keeps bytes, mtime and inode, every directory not recorded as created stays; '
              'the audit hook itself is cross-checked against strace -f on a side workload (every mutating system call inside an API call must have an audit event: counters strace_*); evaluations = API calls judged; distinct_nontrivial = distinct (program shape, step '
              'kinds) histories with >=1 hit and >=1 miss'),
-    'gates': ['ladder_cases', 'many_backup_runs', 'swap_cases', 'swap_cases_rolled_back', 'builds_committed', 'builds_rolled_back', 'cleans', 'ev:os.rmdir|post-root',
+    'gates': ['unrepresentable_target_cases', 'ladder_cases', 'many_backup_runs', 'swap_cases', 'swap_cases_rolled_back', 'builds_committed', 'builds_rolled_back', 'cleans', 'ev:os.rmdir|post-root',
               'ev:os.rename|root', 'ev:os.remove|post-root', 'ev:os.remove|clean', 'ev:os.rmdir|clean'],
 }
 
@@ -55,7 +55,9 @@ def run_shard(sh):
         strace_crosscheck(sh)
     from .swapcases import run_swap_cases
     run_swap_cases(sh, select, 'C03', nested_cache=sh.idx % 2 == 1)
-    from .laddercases import run_ladder_cases
+    from .laddercases import run_ladder_cases, run_unrepresentable_cases
+    if sh.idx % 8 == 2:
+        run_unrepresentable_cases(sh, select)
     run_ladder_cases(sh, select)
     if sh.idx % 8 == 1:
         # more than 128 overwritten foreign files in one build that is rolled back: all of them are back
